@@ -34,7 +34,7 @@ RUNS = {"quick": 24000, "thorough": 500000}
 WALL = {"quick": 150, "thorough": 1500}
 RULE = ("scenario = founders with provenance codes (1-10 taxa, 1-16 markers, 1-3 chromosomes, xoprob with exact 0/0.5), "
         "one protocol object, 1-3 mate() calls (cross table incl. selfs/repeats, scalar or per-cross nmating/nprogeny incl. "
-        "zeros, nself 0-3) or low-level meiosis/dh/cross calls, generator kind and uniform script (pass/low/high/at-xoprob); "
+        "zeros, nself 0-3) or low-level meiosis/dh/cross calls, generator kind and uniform script (pass/low/high/at-xoprob); design arrays compared before/after each call; "
         "distinct = (protocol, count forms, nself, script, chromosome count) ; non-trivial = at least one progeny produced")
 COMPONENTS = {"real": ["SelfCross, TwoWayCross, TwoWayDHCross, ThreeWayCross, ThreeWayDHCross, FourWayCross, FourWayDHCross (.mate)",
                        "pybrops.breed.prot.mate.util mat_meiosis/mat_dh/mat_mate", "pybrops.core.util.mate dense_meiosis/dense_dh/dense_cross",
